@@ -169,6 +169,133 @@ class WhileTrue(ast.NodeTransformer):
         return ast.While(test=ast.Constant(True), body=[ast.If(test=_negate(node.test), body=[ast.Break()], orelse=[])] + node.body, orelse=[])
 
 
+class ConditionViaLocal(ast.NodeTransformer):
+    """``if <test>: ...``  ->  ``_c = <test>; if _c: ...`` (the test is evaluated at the same point; an ``elif`` becomes
+    ``else: _c = ...; if _c:``).  Loop conditions are left alone"""
+
+    def _fix(self, stmts):
+        out = []
+        for st in stmts:
+            if isinstance(st, ast.If) and not isinstance(st.test, (ast.Name, ast.Constant)):
+                out.append(ast.Assign(targets=[ast.Name(id='_c', ctx=ast.Store())], value=st.test, lineno=st.lineno))
+                out.append(ast.If(test=ast.Name(id='_c', ctx=ast.Load()), body=st.body, orelse=st.orelse))
+            else:
+                out.append(st)
+        return out
+
+    def generic_visit(self, node):
+        super().generic_visit(node)
+        for field in ('body', 'orelse', 'finalbody'):
+            v = getattr(node, field, None)
+            if isinstance(v, list) and v and all(isinstance(x, ast.stmt) for x in v):
+                setattr(node, field, self._fix(v))
+        return node
+
+
+class NegatedMembership(ast.NodeTransformer):
+    """``a not in b``  ->  ``not (a in b)``, ``a is not b``  ->  ``not (a is b)`` (always equivalent)"""
+
+    def visit_Compare(self, node):
+        self.generic_visit(node)
+        if len(node.ops) == 1 and isinstance(node.ops[0], (ast.NotIn, ast.IsNot)):
+            pos = ast.In() if isinstance(node.ops[0], ast.NotIn) else ast.Is()
+            return ast.UnaryOp(op=ast.Not(), operand=ast.Compare(left=node.left, ops=[pos], comparators=node.comparators))
+        return node
+
+
+class TupleReturnViaLocals(ast.NodeTransformer):
+    """``return a, b``  ->  ``_r0 = a; _r1 = b; return (_r0, _r1)`` (components evaluated in the same order)"""
+
+    def visit_Return(self, node):
+        if isinstance(node.value, ast.Tuple) and len(node.value.elts) >= 2 and not any(isinstance(e, ast.Starred) for e in node.value.elts):
+            out, names = [], []
+            for i, e in enumerate(node.value.elts):
+                nm = '_r%d' % i
+                out.append(ast.Assign(targets=[ast.Name(id=nm, ctx=ast.Store())], value=e, lineno=node.lineno))
+                names.append(ast.Name(id=nm, ctx=ast.Load()))
+            out.append(ast.Return(value=ast.Tuple(elts=names, ctx=ast.Load())))
+            return out
+        return node
+
+    def visit_Lambda(self, node):
+        return node
+
+
+class KeywordArguments(ast.NodeTransformer):
+    """positional arguments of parser / composer primitive calls written as keyword arguments (``parser.parse_numeric('k', 2)``
+    -> ``parser.parse_numeric(name='k', item_size=2)``): the parameter names are read from common/parse.py; a method name
+    defined with different parameter lists in the binary and the text classes is left alone, and so is every call whose
+    receiver is not a plain name containing ``parser`` / ``composer``"""
+    SIGNATURES = None
+
+    @classmethod
+    def load(cls, root):
+        sigs, clash = {}, set()
+        with open(os.path.join(root, 'cryptoparser', 'common', 'parse.py')) as f:
+            tree = ast.parse(f.read())
+        for k in tree.body:
+            if isinstance(k, ast.ClassDef) and k.name in ('ParserBase', 'ParserBinary', 'ParserText', 'ComposerBase', 'ComposerBinary', 'ComposerText'):
+                for m in k.body:
+                    if isinstance(m, ast.FunctionDef) and not m.name.startswith('__') and not m.args.vararg and not m.args.kwarg:
+                        params = [a.arg for a in m.args.args[1:]]
+                        if m.name in sigs and sigs[m.name] != params:
+                            clash.add(m.name)
+                        sigs[m.name] = params
+        cls.SIGNATURES = {k: v for k, v in sigs.items() if k not in clash}
+
+    def visit_Call(self, node):
+        self.generic_visit(node)
+        f = node.func
+        if isinstance(f, ast.Attribute) and isinstance(f.value, ast.Name) and ('parser' in f.value.id or 'composer' in f.value.id) and \
+                f.attr in (self.SIGNATURES or {}) and node.args and not any(isinstance(a, ast.Starred) for a in node.args):
+            params = self.SIGNATURES[f.attr]
+            if len(node.args) <= len(params) and not any(k.arg in params[:len(node.args)] for k in node.keywords if k.arg):
+                kws = [ast.keyword(arg=p, value=a) for p, a in zip(params, node.args)]
+                return ast.Call(func=f, args=[], keywords=kws + list(node.keywords))
+        return node
+
+
+class ComprehensionToLoop(ast.NodeTransformer):
+    """``x = [e for v in it]`` (one generator, no condition, plain name targets, x and v not used elsewhere in the function
+    before / the loop variable not at all outside)  ->  ``x = []; for v in it: x.append(e)``"""
+
+    def visit_FunctionDef(self, node):
+        self.generic_visit(node)
+        names = {}
+        for n in ast.walk(node):
+            if isinstance(n, ast.Name):
+                names[n.id] = names.get(n.id, 0) + 1
+            elif isinstance(n, ast.arg):
+                names[n.arg] = names.get(n.arg, 0) + 1
+
+        def fix(stmts):
+            out = []
+            for st in stmts:
+                for field in ('body', 'orelse', 'finalbody'):
+                    v = getattr(st, field, None)
+                    if isinstance(v, list) and v and all(isinstance(x, ast.stmt) for x in v) and not isinstance(st, (ast.FunctionDef, ast.ClassDef)):
+                        setattr(st, field, fix(v))
+                if isinstance(st, ast.Try):
+                    for h in st.handlers:
+                        h.body = fix(h.body)
+                if isinstance(st, ast.Assign) and len(st.targets) == 1 and isinstance(st.targets[0], ast.Name) and isinstance(st.value, ast.ListComp) and \
+                        len(st.value.generators) == 1 and not st.value.generators[0].ifs and isinstance(st.value.generators[0].target, ast.Name):
+                    g = st.value.generators[0]
+                    v = g.target.id
+                    inside = sum(1 for n in ast.walk(st.value) if isinstance(n, ast.Name) and n.id == v)
+                    if names.get(v, 0) == inside and st.targets[0].id != v and \
+                            not any(isinstance(n, ast.Name) and n.id == st.targets[0].id for n in ast.walk(st.value)):
+                        out.append(ast.Assign(targets=[st.targets[0]], value=ast.List(elts=[], ctx=ast.Load()), lineno=st.lineno))
+                        out.append(ast.For(target=ast.Name(id=v, ctx=ast.Store()), iter=g.iter, orelse=[], lineno=st.lineno, body=[
+                            ast.Expr(value=ast.Call(func=ast.Attribute(value=ast.Name(id=st.targets[0].id, ctx=ast.Load()), attr='append', ctx=ast.Load()),
+                                                    args=[st.value.elt], keywords=[]))]))
+                        continue
+                out.append(st)
+            return out
+        node.body = fix(node.body)
+        return node
+
+
 TRANSFORMS = {
     'swap-if-branches': SwapIfBranches,
     'return-via-local': ReturnViaLocal,
@@ -179,12 +306,19 @@ TRANSFORMS = {
     'ifexp-to-statement': IfExpToStatement,
     'early-exit': EarlyExit,
     'while-true': WhileTrue,
+    'condition-via-local': ConditionViaLocal,
+    'negated-membership': NegatedMembership,
+    'tuple-return-via-locals': TupleReturnViaLocals,
+    'keyword-arguments': KeywordArguments,
+    'comprehension-to-loop': ComprehensionToLoop,
 }
 
 
 def apply_transform(root, name, only=None):
     """rewrite every module of the package under ``root`` through the transformation; returns the number of modules changed"""
     cls = TRANSFORMS[name]
+    if hasattr(cls, 'load'):
+        cls.load(root)
     n = 0
     for dp, _, fns in os.walk(os.path.join(root, 'cryptoparser')):
         for fn in fns:
